@@ -172,6 +172,14 @@ def correspondence(ctx):
         if fl['pending'].get('dead_refs'):
             dist['references_to_deleted_objects'] += 1
             if fl.get('dead_origin') == 'setm-ref+set': dist['known_set_overwrites_cascade'] += 1; continue      # judged by the search / known-findings path
+        if not wf and fl['outcome'] == 0:
+            deleted = set(h for h, st, cols in fl['pending']['queue'] if st == 'Deleted')
+            if any(t in deleted and h != t for h, t in fl.get('on_delete_refs', [])):
+                # a row that references a row being deleted is neither deleted nor updated earlier in the queue (its reference-clearing UPDATE
+                # was dropped when the holder itself was deleted later in the session): the DELETE is acceptable to the database only through
+                # the schema's ON DELETE SET NULL / CASCADE, which the model deliberately ignores -> outside wf_pending, real flush succeeded
+                dist['relies_on_on_delete_clause'] += 1
+                continue
         if not wf:
             disagreements.append({'what': 'the pending set of a real session is outside wf_pending (hypothesis of C16_order) [%s]' % label, 'input': inp})
         if not same_outcome:
